@@ -16,7 +16,7 @@ import ast
 import re
 
 from ..cfg import header_parts
-from ..flow import Defs, Scope, guard_facts, iterations, rejections
+from ..flow import Defs, Scope, arg, guard_facts, iterations, rejections
 from ..loader import AnalysisError, dotted, norm, walk_no_nested
 from ..report import Ctx
 from ..selftest import Mutant
@@ -63,6 +63,17 @@ def rule_closure(ctx: Ctx) -> None:
     copies = [c for _f, c in ssc.walk() if isinstance(c, ast.Call) and norm(c.func) == "self.copy"]
     ctx.tri("1-closure", sp, (self_mut or copies or [sp.node])[0], bool(copies) and not self_mut, bool(self_mut), "works on a copy, the original pipeline is untouched",
             f"`{norm(self_mut[0])[:50] if self_mut else ''}` changes the pipeline that subpipeline was called on", "no self.copy() found", key="copy")
+    d_sp = Defs(sp)
+    stale = []
+    for r in [r for r in walk_no_nested(sp.node) if isinstance(r, ast.Return) and r.value is not None]:
+        v = d_sp.resolve(r.value)
+        v = v.value if isinstance(v, ast.NamedExpr) else v
+        t = norm(v)
+        if any(isinstance(x, (ast.Subscript, ast.Call)) and ("_internal_cache" in norm(x) or re.search(r"self\._\w*(cache|memo|subpipelines)\w*", norm(x))) for x in ast.walk(v)) or re.fullmatch(r"self(\._\w+)+(\[.*\]|\.get\(.*\))", t):
+            stale.append(r)
+    stored = [s_ for s_ in ast.walk(sp.node) if isinstance(s_, ast.Assign) and any(isinstance(t_, ast.Subscript) and "self." in norm(t_.value) for t_ in s_.targets)]
+    ctx.add("1-closure", sp, (stale or stored or [sp.node])[0], not stale and not stored, "every call returns a newly built pipeline" if not stale and not stored else
+            "subpipeline keeps / hands out a pipeline object it has returned before: a caller that modifies its sub-pipeline (defaults, drop, ...) changes what later restricted runs compute", key="fresh-result")
     uses = bool(ssc.calls("_find_nodes_between"))
     ctx.tri("1-closure", sp, sp.node, uses, False, "the kept set comes from _find_nodes_between", "", "_find_nodes_between is not called from subpipeline", key="drop")
 
@@ -98,6 +109,16 @@ def rule_order(ctx: Ctx) -> None:
     used = any(isinstance(x, ast.Name) and x.id in bound and isinstance(x.ctx, ast.Load) for n in later if cfg.stmt.get(n) is not None for part in header_parts(cfg.stmt[n]) for x in ast.walk(part))
     ctx.tri("2-order", prep, st, bool(bound) and used, isinstance(st, ast.Expr) or (bool(bound) and not used), "the restricted pipeline is bound to a name that the later steps use",
             f"`{norm(st)[:70]}`: the restricted pipeline is discarded, all later steps use the full pipeline", "binding of the restricted pipeline not recognised", key="rebinding")
+    sub_calls = [c for c in ast.walk(prep.node) if isinstance(c, ast.Call) and isinstance(c.func, ast.Attribute) and c.func.attr == "subpipeline"]
+    for c in sub_calls:
+        a0 = arg(c, 0, "inputs")
+        if a0 is None:
+            ctx.add("2-order", prep, c, False, "prepare_run restricts the pipeline without passing the supplied inputs: an interior cut (supplied intermediate) is ignored and its producers are demanded", key="inputs-passed")
+            continue
+        r0 = Defs(prep).resolve(a0)
+        conditional = isinstance(r0, ast.IfExp) and any(isinstance(arm, ast.Constant) and arm.value is None for arm in (r0.body, r0.orelse))
+        ctx.tri("2-order", prep, c, "inputs" in norm(r0) and not conditional, conditional, "the supplied inputs always take part in the restriction",
+                f"`{norm(r0)[:60]}`: the supplied inputs are only passed on under a condition; otherwise a supplied intermediate does not cut the pipeline and its producers' inputs are reported missing", key="inputs-passed")
     late = [n for n in sub if any(n in cfg.reachable_from(c) for c in comp + create)]
     ctx.add("2-order", prep, cfg.stmt[(late or comp)[0]], not late, "completeness check and run creation come after the restriction" if not late else "inputs are validated (or the run is created) against the unrestricted pipeline: the restriction happens afterwards", key="restrict-before-validate")
 
@@ -167,5 +188,6 @@ MUTANTS = [
     Mutant("defaults-not-available-F32b", B, "            if not (new_root_args - set(pipeline.defaults)).issubset(inputs):\n", "            if not new_root_args.issubset(inputs):\n", ("C11.3-message",), why="original F32b"),
     Mutant("map-async-drops-output-names", B, "            internal_shapes=internal_shapes,\n            output_names=output_names,\n            executor=executor,\n            storage=storage,\n", "            internal_shapes=internal_shapes,\n            executor=executor,\n            storage=storage,\n", ("C11.4-forward",), why="seeded C11/3"),
     Mutant("driver-keeps-original-pipeline", "pipefunc/map/_run.py", "    pipeline, run_info, store, outputs, parallel, executor, progress = prepare_run(", "    _pipeline, run_info, store, outputs, parallel, executor, progress = prepare_run(", ("C11.4-forward",)),
+    Mutant("inputs-only-with-auto", PR, "        pipeline = pipeline.subpipeline(set(inputs), output_names)\n", "        pipeline = pipeline.subpipeline(set(inputs) if auto_subpipeline else None, output_names)\n", ("C11.2-order",), why="round-2 seed C11/6"),
     Mutant("twin-stack-renamed", B, "    stack = list(output_nodes)\n    while stack:\n        node = stack.pop()\n", "    stack = list(output_nodes)  # worklist\n    while stack:\n        node = stack.pop()\n", twin=True),
 ]
